@@ -31,6 +31,10 @@ type CondCase struct {
 	// may answer "not changed" only if the active version IS V (an unchanged poll writes no record and
 	// so does not depend on the device). The server is restarted afterwards.
 	FailAudit []int `json:"fail_audit,omitempty"`
+	// indices of put / activate / delete calls whose save fails (the state directory is unavailable while
+	// the call is served): the call reports an error, nothing changes, and the conditional gets that
+	// follow are answered from the state before it
+	FailSave []int `json:"fail_save,omitempty"`
 }
 
 var c09Names = []string{"a", "a", "a", "b", "dev/c", "zz-absent"}
@@ -58,6 +62,9 @@ func genCondCase(rt *rapid.T) CondCase {
 	}
 	if rapid.IntRange(0, 3).Draw(rt, "withauditfail") == 0 {
 		c.FailAudit = rapid.SliceOfN(rapid.IntRange(0, len(c.Ops)), 1, 4).Draw(rt, "failaudit")
+	}
+	if rapid.IntRange(0, 2).Draw(rt, "withsavefail") == 0 {
+		c.FailSave = rapid.SliceOfN(rapid.IntRange(0, len(c.Ops)), 1, 6).Draw(rt, "failsave")
 	}
 	return c
 }
@@ -94,8 +101,10 @@ func fileClientFor(dir string, m model.KV, text bool) (*setec.FileClient, map[st
 
 func runC09(t *testing.T, c CondCase) (*h.Violation, h.Info) {
 	var info h.Info
-	dir := caseDir(t)
-	defer os.RemoveAll(dir)
+	top := caseDir(t)
+	defer os.RemoveAll(top)
+	dir := filepath.Join(top, "state")
+	os.MkdirAll(dir, 0o700)
 	su := dbx.Super()
 	low := dbx.Restricted(1, c.Rules)
 	// two tagged devices (tagged nodes have no user identity): one without any grant, one with caller 1's
@@ -152,6 +161,7 @@ func runC09(t *testing.T, c CondCase) (*h.Violation, h.Info) {
 			}
 		}
 		before := tr.M.String()
+		trBefore := tr.Clone()
 		want := tr.Expect(caller.Rules, op, ver)
 		auditFails := false
 		for _, f := range c.FailAudit {
@@ -175,7 +185,35 @@ func runC09(t *testing.T, c CondCase) (*h.Violation, h.Info) {
 			}
 			continue
 		}
-		got := tgt.Do(caller, op, ver)
+		saveFails := false
+		if op.Mutating() && want.Class == model.OK && tr.M.String() != before {
+			for _, f := range c.FailSave {
+				saveFails = saveFails || f == i
+			}
+		}
+		var early *dbx.Result
+		if saveFails {
+			var got dbx.Result
+			held, err := dbx.Outage(dir, func() { got = tgt.Do(caller, op, ver) })
+			if err != nil {
+				return h.V("harness", "%v", err), info
+			}
+			if held {
+				tr = trBefore // the call was refused by the disk: the model stays where it was
+				info.Class("a-write-whose-save-failed")
+				if got.Class == model.OK {
+					return h.V("result-equals-model", "step %d %s: the save failed (state directory unavailable) yet the call reports success", i, op), info
+				}
+				continue
+			}
+			early = &got // the code put the directory back itself: an ordinary call
+		}
+		var got dbx.Result
+		if early != nil {
+			got = *early
+		} else {
+			got = tgt.Do(caller, op, ver)
+		}
 		if diff := dbx.Compare(got, want); diff != "" {
 			clause := "result-equals-model"
 			if op.Kind == "cond" {
@@ -192,6 +230,12 @@ func runC09(t *testing.T, c CondCase) (*h.Violation, h.Info) {
 			return h.V("fileclient-accepts-secrets-file", "step %d: NewFileClient: %v", i, err), info
 		}
 		sv, ferr := fc.GetIfChanged(context.Background(), op.Name, api.SecretVersion(ver))
+		// an entry whose value is the empty byte string: the file-backed client may treat it as absent
+		// (it does today) or serve it - the properties speak about non-empty secrets only
+		emptyEntry := op.Name != "" && tr.M[op.Name] != nil && tr.M[op.Name].Vers[tr.M[op.Name].Active] == ""
+		if emptyEntry && !errors.Is(ferr, api.ErrNotFound) {
+			served[op.Name] = true
+		}
 		switch {
 		case !served[op.Name]:
 			if !errors.Is(ferr, api.ErrNotFound) || sv != nil {
